@@ -1350,3 +1350,73 @@ Proof.
       * apply awt_same_keep; try assumption. left. reflexivity.
     + unfold pos_of. cbn [regs]. rewrite rget_set_same by exact L. reflexivity.
 Qed.
+
+Lemma rec_good_new lg t p lost : rec_good_b lg (Some (new_rec t p lost)) = true.
+Proof. unfold rec_good_b, new_rec. cbn [m_mode m_start m_deliv m_eos m_eos_ok]. destruct (t =? 0); reflexivity. Qed.
+
+Lemma step_subrecent e m s t : good_b m = true -> m_viol m = false -> Inv e m ->
+  R (fst (step e (OSubRecent s t))) (mon_step m (OSubRecent s t) (snd (step e (OSubRecent s t)))).
+Proof.
+  intros G V I. unfold step, step_gen.
+  destruct (get (objs e) s) as [o|] eqn:GN.
+  { unfold mon_step. rewrite V. cbn. apply R_same; assumption. }
+  destruct (valid_mode t && palive e) eqn:VP.
+  2:{ unfold mon_step. rewrite V. cbn. apply R_same; assumption. }
+  apply andb_prop in VP as (VM & PA).
+  pose proof (i_g _ _ I) as [G1 G2 G3 G4 G5 G6]. fold (npub m) in *.
+  pose proof (zlen_nonneg (m_log m)) as LN. fold (npub m) in LN. assert (HW : HALF < W) by reflexivity.
+  unfold subscribe_recent_lk. rewrite G3. rewrite wrap_small by lia. replace (npub m + 1 - 1) with (npub m) by lia.
+  destruct (subscribe_inv e m s t (npub m) false I GN VM ltac:(lia)) as (I' & OE).
+  { intros _. pose proof (zlen_nonneg (qd (pq e))). destruct (t =? 0); lia. }
+  rewrite OE. unfold mon_step. rewrite V. cbn [o_st ok3 Z.eqb negb o_b].
+  assert (MN : get (m_subs m) s = None) by (apply (i_none _ _ I); exact GN). rewrite MN, VM. cbn [negb orb].
+  destruct (HALF <=? npub m) eqn:HB; [lia|]. rewrite Z.eqb_refl. cbn [negb].
+  split; [apply good_add_bad; apply good_set_sub; [exact G|apply rec_good_new]|right; apply Inv_bad; exact I'].
+Qed.
+
+Lemma step_subat e m s t p : good_b m = true -> m_viol m = false -> Inv e m ->
+  R (fst (step e (OSubAt s t p))) (mon_step m (OSubAt s t p) (snd (step e (OSubAt s t p)))).
+Proof.
+  intros G V I. unfold step, step_gen.
+  destruct (get (objs e) s) as [o|] eqn:GN.
+  { unfold mon_step. rewrite V. cbn. apply R_same; assumption. }
+  destruct (valid_mode t && palive e && (0 <=? p) && (p <? HALF)) eqn:VP.
+  2:{ unfold mon_step. rewrite V. cbn. apply R_same; assumption. }
+  apply andb_prop in VP as (VP & P2). apply andb_prop in VP as (VP & P1). apply andb_prop in VP as (VM & PA).
+  pose proof (i_g _ _ I) as [G1 G2 G3 G4 G5 G6]. fold (npub m) in *.
+  pose proof (i_mm _ _ I) as (MM1 & MM2).
+  destruct (subscribe_inv e m s t p (negb (in_window m t p)) I GN VM ltac:(lia)) as (I' & OE).
+  { intros LS. apply negb_false_iff in LS. unfold in_window in LS. rewrite MM1 in LS.
+    pose proof (zlen_nonneg (qd (pq e))). destruct (t =? 0); lia. }
+  rewrite OE. unfold mon_step. rewrite V. cbn [o_st ok3 Z.eqb negb o_b].
+  assert (MN : get (m_subs m) s = None) by (apply (i_none _ _ I); exact GN). rewrite MN, VM. cbn [negb orb].
+  destruct (HALF <=? p) eqn:HB; [lia|]. destruct (p <? 0) eqn:PN; [lia|]. cbn [orb]. rewrite Z.eqb_refl. cbn [negb].
+  split; [apply good_add_bad; apply good_set_sub; [exact G|apply rec_good_new]|right; apply Inv_bad; exact I'].
+Qed.
+
+Lemma step_subcopy e m s src : good_b m = true -> m_viol m = false -> Inv e m ->
+  R (fst (step e (OSubCopy s src))) (mon_step m (OSubCopy s src) (snd (step e (OSubCopy s src)))).
+Proof.
+  intros G V I. unfold step, step_gen.
+  destruct (get (objs e) s) as [o0|] eqn:GN.
+  { unfold mon_step. rewrite V. cbn. apply R_same; assumption. }
+  destruct (live_obj e src) as [o|] eqn:L.
+  2:{ unfold mon_step. rewrite V. cbn. apply R_same; assumption. }
+  destruct (inv_rec _ _ _ _ I L) as (r & Gr & LV).
+  pose proof (i_sub _ _ I src o r L Gr) as (U & SB & MD & VM & KK & CU & RG & AW & PO).
+  unfold subscribe_copy_lk. set (l := rget (regs (pq e)) (s_h o)) in *.
+  set (lost := m_lost r || m_eos r || m_kicked r || negb (idle_pc (m_pc r))).
+  destruct (subscribe_inv e m s (s_mode o) (r_pos l) lost I GN VM RG) as (I' & OE).
+  { intros LS. unfold lost in LS. apply orb_false_elim in LS as (LS & L4). apply orb_false_elim in LS as (LS & L3).
+    apply orb_false_elim in LS as (L1 & L2). apply negb_false_iff in L4.
+    specialize (PO L2). destruct PO as (ST & M0 & M12). rewrite MD in *.
+    destruct (s_mode o =? 0) eqn:T0.
+    - assert (T : s_mode o = 0) by lia. specialize (M0 T). destruct M0 as (A1 & A2 & A3 & A4).
+      specialize (A2 L4). specialize (A4 L1). rewrite A2. lia.
+    - assert (T : s_mode o <> 0) by lia. specialize (M12 T). destruct M12 as (B1 & B2 & B3 & B4).
+      specialize (B4 L1). destruct B4 as (C1 & C2 & C3). apply C2. exact L4. }
+  rewrite OE. unfold mon_step. rewrite V. cbn [o_st ok3 Z.eqb negb o_b].
+  assert (MN : get (m_subs m) s = None) by (apply (i_none _ _ I); exact GN). rewrite MN, Gr, LV. cbn [negb orb].
+  destruct (HALF <=? r_pos l) eqn:HB; [lia|]. rewrite CU, Z.eqb_refl. cbn [negb]. rewrite MD. fold lost.
+  split; [apply good_add_bad; apply good_set_sub; [exact G|apply rec_good_new]|right; apply Inv_bad; exact I'].
+Qed.
